@@ -39,6 +39,7 @@ pub const EPS: &[&str] = &[
     "private.has_tag/add_tag/remove_tag",                           // 18
     "serde_json::from_slice::<LanguageIdentifier> (raw and quoted)", // 19
     "parsed value: to_string/character_direction/maximize/minimize/matches", // 20
+    "LanguageIdentifier::try_from_iter / parser::parse_language_identifier_from_iter (doc-hidden iterator entry points)", // 21
 ];
 pub const PARSER_EPS: &[usize] = &[0, 8, 12];
 
@@ -161,6 +162,25 @@ pub fn call_ep(ep: usize, b: &[u8]) -> Result<bool, String> {
                 let _ = format!("{:?}", l);
                 true
             }
+        }),
+        21 => guard(|| {
+            // the public (doc-hidden) iterator entry points, with the tokenisations a caller can hand them: the
+            // library's own split, a split on '-' only (tokens may then contain '_'), the whole input as one
+            // token, an empty iterator; with and without `allow_extension`
+            let mut any = false;
+            for allow in [false, true] {
+                let mut it = b.split(|c| *c == b'-' || *c == b'_').peekable();
+                any |= LanguageIdentifier::try_from_iter(&mut it, allow).is_ok();
+                let _ = it.count();
+                let mut it = b.split(|c| *c == b'-').peekable();
+                any |= unic_langid_impl::parser::parse_language_identifier_from_iter(&mut it, allow).is_ok();
+                let _ = it.count();
+                let mut it = std::iter::once(b).peekable();
+                any |= LanguageIdentifier::try_from_iter(&mut it, allow).is_ok();
+                let mut it = std::iter::empty::<&[u8]>().peekable();
+                any |= unic_langid_impl::parser::parse_language_identifier_from_iter(&mut it, allow).is_ok();
+            }
+            any
         }),
         _ => Ok(false),
     }
